@@ -200,6 +200,47 @@ func c13StmtLifecycles(r *vf.Run, sid string, gdb, fdb *sql.DB, ds *gen.Dataset)
 			}
 		}
 	}
+	// (round 9) an argument of type []byte: whatever text the driver makes of it, the two kinds of data source make the
+	// same (one-shot and prepared)
+	if !bad {
+		col := cols[0]
+		for _, arg := range [][]byte{[]byte("x"), []byte(""), []byte("12"), {0xff, 0x00}} {
+			text := col + " = $1"
+			var tabs [4]sqlTable
+			var errs [4]error
+			k := 0
+			for _, hn := range []string{"grpc", "file"} {
+				rows, err := handles[hn].Query(text, arg)
+				if err == nil {
+					tabs[k], err = readRows(rows)
+				}
+				errs[k] = err
+				k++
+				st, err := handles[hn].Prepare(text)
+				if err == nil {
+					var rows *sql.Rows
+					if rows, err = st.Query(arg); err == nil {
+						tabs[k], err = readRows(rows)
+					}
+					st.Close()
+				}
+				errs[k] = err
+				k++
+			}
+			r.Eval(1)
+			for i := 1; i < 4; i++ {
+				if (errs[i] == nil) != (errs[0] == nil) || (errs[0] == nil && compareTables(tabs[i], tabs[0]) != "") {
+					r.Violation(cid, "grpc-vs-file-dsn", map[string]any{"text": text, "argument": fmt.Sprintf("[]byte(%q)", arg), "server": sid,
+						"results": fmt.Sprintf("grpc one-shot %v %v | grpc prepared %v %v | file one-shot %v %v | file prepared %v %v", fmtRows(tabs[0].Rows, 2), errs[0], fmtRows(tabs[1].Rows, 2), errs[1], fmtRows(tabs[2].Rows, 2), errs[2], fmtRows(tabs[3].Rows, 2), errs[3])})
+					bad = true
+					break
+				}
+			}
+			if bad {
+				break
+			}
+		}
+	}
 	// a pinned connection: prepare under a context that ends, execute, and use the same connection for a one-shot query
 	for _, hn := range []string{"grpc", "file"} {
 		if bad {
